@@ -18,6 +18,7 @@
 #include <any>
 #include <boost/any.hpp>
 #include <boost/mpl/vector.hpp>
+#include <boost/fusion/include/mpl.hpp>
 #include <boost/msm/front/state_machine_def.hpp>
 #include <boost/msm/front/functor_row.hpp>
 #include <boost/msm/front/completion_event.hpp>
